@@ -1,6 +1,6 @@
 import GuppyVerif.Lemmas.C01
 /-! `setitem` establishes `Holds` (Lemma A) -/
-namespace GuppyVerif.Wiring
+namespace GuppyVerif.DFWiring
 
 /-- post-condition of `setitem` on place `p : t` with a wire denoting `v` -/
 def SetPost (L : Locals) (n : Nat) (p : PlaceId) (env : Env) (t : Ty) (v : Val)
@@ -105,4 +105,4 @@ theorem setitemList_post : ∀ (ts : List Ty) (L : Locals) (n : Nat) (p : PlaceI
   | _ :: _, _, _, _, _, _, _, [], _, _, hs => by simp [HasShapes] at hs
 end
 
-end GuppyVerif.Wiring
+end GuppyVerif.DFWiring
